@@ -202,8 +202,8 @@ def _jitoff_pass(ctx):
         outp = os.path.join(td, "out.json")
         with open(refp, "wb") as f:
             pickle.dump({k: v for k, v in EXP.ref.items() if k[0] in setups}, f)
-        env = dict(os.environ, NUMBA_DISABLE_JIT="1", PYTHONPATH="/verif", PYTHONHASHSEED="0")
-        p = subprocess.run([sys.executable, "-W", "ignore", "-m", "vf.props.c08", "jitoff", refp, outp, str(depth), ",".join(setups)], env=env, capture_output=True, text=True, cwd="/verif", timeout=3000)
+        env = dict(os.environ, NUMBA_DISABLE_JIT="1", PYTHONHASHSEED="0")  # PYTHONPATH is inherited
+        p = subprocess.run([sys.executable, "-W", "ignore", "-m", "vf.props.c08", "jitoff", refp, outp, str(depth), ",".join(setups)], env=env, capture_output=True, text=True, cwd=os.path.dirname(os.path.dirname(os.path.dirname(os.path.abspath(__file__)))), timeout=3000)
         if not os.path.exists(outp):
             raise RuntimeError("JIT-off pass failed:\n" + p.stdout[-3000:] + p.stderr[-3000:])
         results = json.load(open(outp))
@@ -257,8 +257,8 @@ def _in_jitoff_process(case):
         EXP.compute_ref([case["setup"]])
         pickle.dump({k: v for k, v in EXP.ref.items() if k[0] == case["setup"]}, open(refp, "wb"))
         json.dump(case, open(casep, "w"))
-        env = dict(os.environ, NUMBA_DISABLE_JIT="1", PYTHONPATH="/verif", PYTHONHASHSEED="0")
-        p = subprocess.run([sys.executable, "-W", "ignore", "-m", "vf.props.c08", "jitoff-one", refp, outp, casep], env=env, capture_output=True, text=True, cwd="/verif", timeout=3000)
+        env = dict(os.environ, NUMBA_DISABLE_JIT="1", PYTHONHASHSEED="0")  # PYTHONPATH is inherited
+        p = subprocess.run([sys.executable, "-W", "ignore", "-m", "vf.props.c08", "jitoff-one", refp, outp, casep], env=env, capture_output=True, text=True, cwd=os.path.dirname(os.path.dirname(os.path.dirname(os.path.abspath(__file__)))), timeout=3000)
         if not os.path.exists(outp):
             raise RuntimeError("JIT-off replay failed:\n" + p.stdout[-3000:] + p.stderr[-3000:])
         r = json.load(open(outp))
